@@ -1076,7 +1076,9 @@ func c16Watch(c *Ctx, cs *Case) {
 				return
 			}
 			shown = append(shown, trunc(got, 300))
-			ok = got == w
+			// (a stalled process may answer the change and the touch one after the other: the right
+			// tree printed more than once is still the right tree)
+			ok = got == w || (len(w) > 0 && len(got)%len(w) == 0 && got == strings.Repeat(w, len(got)/len(w)))
 		}
 		c.Eval(gen.HashString("watch"+cs.Opt["format"]+strconv.Itoa(si)), true)
 		c.Count("watch_refreshes_judged", 1)
